@@ -82,6 +82,54 @@ def gen(ctx):
         feed(img_str(0, 0, 181, 181, at))                               # pasted on a large canvas
         feed(img_str(0, 0, w, h, lambda x, y: at(x + 1, y + 1)))        # shifted contents
         feed(img_str(0, 0, 2 * w, h, lambda x, y: at(x % w, y)))
+    # structurally valid symbols whose codewords are arbitrary: random data area, and blocks whose syndromes point at
+    # positions just in front of the block (the RS position guard)
+    from checks import refmicro, refrmqr, gf256
+    from checks.refqr import bits_of
+
+    def raw_symbol(sym, ver, level, mask, stream_bits):
+        if sym == 'qr':
+            n = refqr.size_of(ver)
+            m, f = refqr.function_patterns(ver)
+            for k, (x, y) in enumerate(refqr.data_coords(ver, f)):
+                v = stream_bits[k] if k < len(stream_bits) else 0
+                m[y][x] = v ^ (1 if refqr.MASKS[mask](y, x) else 0)
+            refqr.draw_format(m, n, level, mask)
+            refqr.draw_version(m, n, ver)
+            return m
+        if sym == 'mq':
+            m, f = refmicro.function_patterns(ver)
+            for k, (x, y) in enumerate(refmicro.data_coords(ver, f)):
+                v = stream_bits[k] if k < len(stream_bits) else 0
+                m[y][x] = v ^ (1 if refmicro.MASKS[mask](y, x) else 0)
+            b = refmicro.format_bits(ver, level, mask)
+            for i in range(8):
+                m[1 + i][8] = (b >> i) & 1
+            for i in range(7):
+                m[8][7 - i] = (b >> (8 + i)) & 1
+            return m
+        forms, _, _ = refrmqr.encode_forms(ver, level, 0, [])
+        m = forms[-1]
+        _, f = refrmqr.function_patterns(ver)
+        for k, (x, y) in enumerate(refrmqr.data_coords(ver, f)):
+            v = stream_bits[k] if k < len(stream_bits) else 0
+            m[y][x] = v ^ (1 if (y // 2 + x // 3) % 2 == 0 else 0)
+        return m
+    singles = [('qr', 1, 1, 26, 7), ('qr', 1, 2, 26, 17), ('qr', 2, 0, 44, 16), ('mq', 2, 1, 10, 5), ('mq', 4, 3, 24, 14), ('rm', 0, 0, 13, 7), ('rm', 5, 1, 21, 14)]
+    for (sym, ver, level, tot, ecc) in singles:
+        for k in range(8 if ctx.tier == 'quick' else 80):
+            if k % 2 == 0:
+                cw = r.bytes(tot)
+            else:
+                extra = r.range(1, 3)
+                msg = bytes([r.range(1, 255)]) + r.bytes(tot + extra - 1 - ecc)
+                cw = (msg + gf256.parity(ecc, msg))[extra:]
+            bits = [b for c in cw for b in bits_of(c, 8)]
+            if sym == 'mq' and ver in (1, 3):
+                continue
+            mask = 0 if sym == 'rm' else r.choice(symgen.masks(sym))
+            m = raw_symbol(sym, ver, level, mask, bits)
+            L.append('%s.dec %s' % (sym, refqr.to_image_str(m)))
     # another version's format/size combination: QR symbol body of v2 with size of v3 etc. is covered by padding;
     # rMQR: version information of a different size stamped in
     for sym, m in mats:
